@@ -166,3 +166,17 @@ func (w *walkResult) summary() string {
 	}
 	return fmt.Sprintf("%s wrapper=%s cap=%s env=%v: %d input atoms, %d nodes, %d constraints, %d static hook sites, dynamic %v", w.In.Name, w.Opts.Wrapper, w.Opts.Cap, w.Opts.Env, len(w.Leaves), w.E.NodeCnt, len(w.E.Cons), len(w.F.sites), tot)
 }
+
+// walkFailed: the real Define did not go through on the symbolic API for a valid instance. When the
+// real circuit (gnark test engine) refuses the valid proof as well, that is the violation; otherwise
+// the failure is the harness's and the run is inconclusive.
+func walkFailed(r *Run, in *instance, wr string, w *walkResult) {
+	what := fmt.Sprintf("%s/%s: Define fails on the valid instance: %s %v", in.Name, wr, short(w.Panic, 200), w.Err)
+	cr := &circuitReplay{Kind: "circuit", Wrapper: wr, Instance: in.Base, K: in.K, Expect: "rejected"}
+	acc, msg := runCircuitReplay(cr, r.Repo)
+	if acc {
+		r.Infra("%s -- but the real circuit (test engine) accepts the valid proof: harness problem", what)
+		return
+	}
+	r.addViolationWithReplay("valid proof rejected / circuit not definable ("+wr+" wrapper)", what+" (real circuit: "+short(msg, 100)+")", toMap(cr), "real circuit (test.IsSolved) rejects the unmodified valid proof")
+}
